@@ -114,4 +114,43 @@ def update (info : List (GVar × Nat × Nat)) (f : Nat) (newf : Nat → Nat → 
 def updateParam (mem : Nat → α) (ofs sz : Nat) (values : Nat → α) : Nat → α :=
   (List.range sz).foldl (fun m i => fun s => if s = ofs + i then values i else m s) mem
 
+/-! ### which variables are precomputed (`VForm.dependency_analysis`, pyiga/vform.py:509-527)
+
+```
+if do_precompute:
+    upd_vars = [v for v in self.linear_deps if isinstance(v, AsmVar)
+            and isinstance(v.src, InputField) and v.src.updatable]
+    no_precomp = set_union(networkx.descendants(dep_graph, v) for v in upd_vars)
+    self.precomp = [v for v in self.linear_deps
+            if v.scope != Scope.BASISFUN and v not in no_precomp]
+```
+(before commit 5ff56ef: `self.precomp = [v for v in self.linear_deps if v.scope != Scope.BASISFUN]`).
+Variables are numbered; `deps v` = the variables `v.expr` refers to directly (edges `dep → v` of the
+dependency graph); `isUpd v` = "`v` is sourced from an updatable input field".  The graph is a DAG;
+`fuel` bounds the depth of the traversal (any fuel ≥ number of variables is exact). -/
+
+/-- `v ∈ networkx.descendants(dep_graph, u)` for some updatable-sourced `u`: some direct dependency
+is such a `u` or is itself a descendant. -/
+def descOfUpd (deps : Nat → List Nat) (isUpd : Nat → Bool) : Nat → Nat → Bool
+  | 0, _ => false
+  | fuel + 1, v => (deps v).any (fun w => isUpd w || descOfUpd deps isUpd fuel w)
+
+/-- `self.precomp`; `repaired = false` is the rule before the fix (everything not depending on a
+basis function). -/
+def precompRule (repaired : Bool) (deps : Nat → List Nat) (isUpd : Nat → Bool) (basisScope : Nat → Bool)
+    (fuel : Nat) (linearDeps : List Nat) : List Nat :=
+  linearDeps.filter (fun v => !basisScope v && !(repaired && descOfUpd deps isUpd fuel v))
+
+/-- value of a variable at one quadrature node as `precompute_fields` computes it: input-field
+variables read their array, the others apply their own operation `op v` to the values of their
+direct dependencies (depth bounded by `fuel`). -/
+def evalVar (deps : Nat → List Nat) (srcOf : Nat → Option (Nat × Nat))
+    (op : Nat → List (Nat → α) → Nat → α) (inp : Nat × Nat → Nat → α) : Nat → Nat → Nat → α
+  | 0, v => match srcOf v with
+      | some fd => inp fd
+      | none => op v []
+  | fuel + 1, v => match srcOf v with
+      | some fd => inp fd
+      | none => op v ((deps v).map (fun w => evalVar deps srcOf op inp fuel w))
+
 end Pyiga.Layout
